@@ -175,6 +175,36 @@ func VerifC07_TwoQueries() {
 	verifReach("end")
 }
 
+// Two queries to one address, one after the other (the node idle in between): a duplicate of the first
+// query's reply that arrives while the second query is waiting completes nothing - each reply
+// completes at most one query, whatever the history of earlier transactions with that address.
+func VerifC07_ReplayAcrossQueries() {
+	v := verifStartServer(verifSrvOpt{noSecurity: true})
+	dst := verifC07Addrs[0]
+	p1 := verifStartQuery(v, context.Background(), dst, "ping", QueryInput{})
+	if !p1.sent {
+		return
+	}
+	g1 := verifReplyMsg(v, p1.tid)
+	v.sock.deliver(verifEncode(g1, 50), dst)
+	verifAssert(p1.done && p1.res.Err == nil && p1.outstanding() == 0, "C07: the first query completes with its reply")
+	verifQuiesce()
+	p2 := verifStartQuery(v, context.Background(), dst, []string{"ping", "find_node"}[verifChoice(0, 1)], QueryInput{})
+	if !p2.sent {
+		return
+	}
+	// the earlier reply again, byte for byte
+	v.sock.deliver(verifEncode(g1, 50), dst)
+	verifAssert(!p2.done, "C07: a replay of an earlier query's reply does not complete a later query to the same address")
+	verifAssert(p2.outstanding() == 1, "C07: ... and leaves its pending transaction in place")
+	g2 := verifGenuineReply(v, p2.tid)
+	v.sock.deliver(verifEncode(g2, 50), dst)
+	verifAssert(p2.done && p2.res.Reply.T == p2.tid, "C07: the second query completes with its own reply")
+	verifSameReply(p2.res.Reply, g2, "C07: the second query returns exactly its own reply")
+	verifAssert(p2.outstanding() == 0, "C14: no pending transaction is left")
+	verifReach("end")
+}
+
 func VerifC07_MustFail() {
 	v := verifStartServer(verifSrvOpt{noSecurity: true})
 	p := verifStartQuery(v, context.Background(), verifC07Addrs[0], "ping", QueryInput{})
